@@ -42,6 +42,7 @@ def check(rep, model, tier):
     group(rep, model)
     group_recompute(rep, model)
     settings_shared(rep, model, det)
+    defaults_fresh(rep, model, det)
     effself(rep, model, summ, det)
     from . import c06
     c06.default_keys(rep, model)
@@ -460,6 +461,33 @@ def lookup(t, i):
     if t[0] in ('list', 'tuple') and -len(t[1]) <= i < len(t[1]):
         return t[1][i]
     return None
+
+
+def defaults_fresh(rep, model, det):
+    """a freshly constructed object has the documented defaults, whatever was done to earlier objects: a default settings dictionary is built per object, never a
+    module-level dictionary handed out by reference (an in-place edit through one object would change the defaults of every later one)"""
+    rep.rule('DEFAULTS-FRESH', 'no settings attribute (thresholds, burst_kwargs, find_extrema_kwargs) of a constructed object is, or is part of, a module-level object: defaults are built '
+                               'per object (alias analysis of what BycycleBase.__init__ / Bycycle.__init__ / BycycleGroup.__init__ store)')
+    from ..effects import root
+    n = 0
+    for cls in (BASE, BY, GRP):
+        init = model.funcs.get(f'{cls}.__init__')
+        if init is None:
+            continue
+        isite = f'{init.path}:{init.node.lineno} {cls.rsplit(".", 1)[1]}.__init__'
+        for attr in ('thresholds', 'burst_kwargs', 'find_extrema_kwargs'):
+            held = det[init.qual].env.get('self.' + attr)
+            if held is None:
+                continue
+            n += 1
+            # a shallow copy owns its top level: enough for the flat dictionaries (numbers / tuples as values), not for find_extrema_kwargs, which nests filter_kwargs
+            shared = sorted(str(x) for x in held if x[0] != 'NotC' and root(x)[0] == 'G' and not (x[0] == 'Sh' and attr != 'find_extrema_kwargs'))
+            if shared:
+                rep.violation('DEFAULTS-FRESH', f'{cls.rsplit(".", 1)[1]}.{attr}', isite, expected='a dictionary built for this object (literal, copy) or the one the caller passed',
+                              found=f'{shared}: one module-level object shared by every object constructed with the default; an in-place edit of a setting leaks into later objects')
+            else:
+                rep.ok('DEFAULTS-FRESH', f'{cls.rsplit(".", 1)[1]}.{attr}', isite, found='caller\'s object or a fresh one')
+    rep.floor('settings attributes examined for shared defaults', n, 3)
 
 
 def settings_shared(rep, model, det):
